@@ -1,57 +1,434 @@
+//! C05 — The materialised state of a collaborative object depends only on the set of change
+//! commits reachable from its references: replicas holding the same changes compute identical
+//! state and history regardless of which namespaces point at the changes, the order in which
+//! references / changes are enumerated, or the order in which they were received.
+//!
+//! Engine B (process-isolated sweep; `GIT_COMMITTER_DATE` is process-global and every worker is
+//! single-threaded). Real git storage, real signed change commits written through
+//! `radicle_cob::change::Storage::store`, refs written through `object::Storage::update`,
+//! evaluation through `radicle_cob::get::<Issue | Patch | Thread | Identity>`.
+//!
+//! Item = one change DAG instance: (object type, DAG shape on root + n changes, timestamp
+//! pattern over {t, t+1}, rank order of the change ids (realised by salt search on the commit
+//! message), payload variant). For every item, EVERY presentation of the same change set is
+//! evaluated: every sequence of 1..=M ref targets (repetition and non-tip targets allowed, so
+//! redundant refs and shared targets are included) that covers the tips, assigned to the
+//! namespaces in ref-enumeration order — which enumerates both "which namespaces point at what"
+//! and the enumeration order of the tip refs. In addition the same DAG is written into a second
+//! repository children-first ("received in a different order") and evaluated there.
+//!
+//! Oracle (purely differential): all evaluations of one item are equal — object (serialised and
+//! `Debug`), manifest, and the complete history graph (node set, edges, tips).
+
 #[path = "../cobgraph.rs"]
 mod cobgraph;
+
 use cobgraph::*;
-use radicle::cob::issue;
-use std::time::Instant;
+use mcx::report::{Ctx, Violation};
+use mcx::sweep::{self, Crash, ItemOut, ProcOpts};
+use radicle::git::Oid;
+use serde_json::{json, Map, Value};
+use std::cell::RefCell;
+use std::collections::{BTreeMap, BTreeSet};
+use std::time::Duration;
+
+#[derive(Clone, Copy, Debug, PartialEq, Eq)]
+enum TsSet {
+    /// Every pattern in {t, t+1}^n.
+    All,
+    /// All equal, and strictly increasing with the change index.
+    EqualAndIncreasing,
+    /// All equal.
+    Equal,
+}
+
+#[derive(Clone, Copy, Debug, PartialEq, Eq)]
+enum PresSet {
+    /// Every covering sequence of 1..=max(3, #tips) targets.
+    Full,
+    /// Every covering sequence of 1..=max(2, #tips) targets.
+    Short,
+}
+
+#[derive(Clone, Copy, Debug)]
+struct Family {
+    kind: Kind,
+    n: usize,
+    ts: TsSet,
+    /// All n! rank orders of the non-root change ids (salt search) or whatever salt 0 gives.
+    all_ranks: bool,
+    pres: PresSet,
+    /// Payload variants: 0 all valid; 1 the middle change carries a rejected 2nd action;
+    /// 2 the last change has a commit signature that does not verify.
+    variants: usize,
+}
+
+impl Family {
+    fn ts_count(&self) -> u64 {
+        match self.ts {
+            TsSet::All => 1 << self.n,
+            TsSet::EqualAndIncreasing => 2,
+            TsSet::Equal => 1,
+        }
+    }
+    fn rank_count(&self) -> u64 {
+        if self.all_ranks {
+            (1..=self.n as u64).product()
+        } else {
+            1
+        }
+    }
+    fn size(&self) -> u64 {
+        Shape::count(self.n) * self.ts_count() * self.rank_count() * self.variants as u64
+    }
+    fn describe(&self) -> Value {
+        json!({"kind": self.kind.name(), "changes": self.n, "shapes": Shape::count(self.n), "timestamps": format!("{:?}", self.ts),
+               "rank_orders": self.rank_count(), "presentations": format!("{:?}", self.pres), "variants": self.variants, "items": self.size()})
+    }
+    fn plan(&self, mut i: u64) -> (Plan, usize) {
+        let variant = (i % self.variants as u64) as usize;
+        i /= self.variants as u64;
+        let rank_i = i % self.rank_count();
+        i /= self.rank_count();
+        let ts_i = i % self.ts_count();
+        i /= self.ts_count();
+        let shape = Shape::nth(self.n, i);
+        let n = self.n;
+        let ts: Vec<i64> = match self.ts {
+            TsSet::All => (0..n).map(|k| ((ts_i >> k) & 1) as i64).collect(),
+            TsSet::EqualAndIncreasing if ts_i == 1 => (0..n).map(|k| k as i64 + 1).collect(),
+            _ => vec![0; n],
+        };
+        let rank = if self.all_ranks { Some(permutations(n)[rank_i as usize].clone()) } else { None };
+        let mut modes = vec![Mode::Valid; n];
+        match variant {
+            1 => modes[(n - 1) / 2] = Mode::Rejected { pos: 1, reason: 0 },
+            2 => modes[n - 1] = Mode::BadSig,
+            _ => {}
+        }
+        (Plan { kind: self.kind, shape, ts, modes, rank }, variant)
+    }
+}
+
+fn families(thorough: bool) -> Vec<Family> {
+    let mut f = vec![];
+    // Complete product on up to 3 changes for every object type.
+    for kind in KINDS {
+        for n in 1..=3 {
+            let variants = if kind == Kind::Issue || thorough { 3 } else { 1 };
+            f.push(Family { kind, n, ts: TsSet::All, all_ranks: true, pres: PresSet::Full, variants });
+        }
+    }
+    if !thorough {
+        // 4 changes: every shape, equal timestamps (the id tie-break decides everything),
+        // rank as salt 0 gives it, short presentations.
+        f.push(Family { kind: Kind::Issue, n: 4, ts: TsSet::Equal, all_ranks: false, pres: PresSet::Short, variants: 1 });
+    } else {
+        // 4 changes: every shape x every timestamp pattern x every rank order, short presentations ...
+        f.push(Family { kind: Kind::Issue, n: 4, ts: TsSet::All, all_ranks: true, pres: PresSet::Short, variants: 1 });
+        // ... and the full presentation set for equal / increasing timestamps, every rank order.
+        f.push(Family { kind: Kind::Issue, n: 4, ts: TsSet::EqualAndIncreasing, all_ranks: true, pres: PresSet::Full, variants: 1 });
+        for kind in [Kind::Patch, Kind::Thread, Kind::Identity] {
+            f.push(Family { kind, n: 4, ts: TsSet::Equal, all_ranks: false, pres: PresSet::Short, variants: 1 });
+        }
+        // 5 changes: every shape, equal timestamps, salt-0 ranks, full presentations.
+        f.push(Family { kind: Kind::Issue, n: 5, ts: TsSet::Equal, all_ranks: false, pres: PresSet::Full, variants: 1 });
+    }
+    f
+}
+
+fn locate(fams: &[Family], mut i: u64) -> (usize, u64) {
+    for (k, f) in fams.iter().enumerate() {
+        if i < f.size() {
+            return (k, i);
+        }
+        i -= f.size();
+    }
+    panic!("index out of range");
+}
+
+/// Every sequence of `m` in `1..=max_len` ref targets over nodes `0..=n` whose set covers `tips`.
+fn presentations(n: usize, tips: &[usize], max_len: usize) -> Vec<Vec<usize>> {
+    let mut out = vec![];
+    let nodes = n + 1;
+    for m in tips.len().max(1)..=max_len.max(tips.len()) {
+        let total = (nodes as u64).pow(m as u32);
+        for mut code in 0..total {
+            let mut seq = vec![0usize; m];
+            for slot in seq.iter_mut().rev() {
+                *slot = (code % nodes as u64) as usize;
+                code /= nodes as u64;
+            }
+            if tips.iter().all(|t| seq.contains(t)) {
+                out.push(seq);
+            }
+        }
+    }
+    out
+}
+
+struct Worlds {
+    /// Changes written parents-first.
+    w1: World,
+    /// Same identity, changes written children-first.
+    w2: World,
+}
+
+thread_local! {
+    static WORLDS: RefCell<Option<Worlds>> = const { RefCell::new(None) };
+}
+
+const MAX_NS: usize = 6;
+
+fn with_worlds<R>(seed: u64, f: impl FnOnce(&mut Worlds) -> R) -> R {
+    WORLDS.with(|cell| {
+        let mut g = cell.borrow_mut();
+        let ws = g.get_or_insert_with(|| {
+            let w1 = World::new(seed, MAX_NS);
+            let w2 = World::new(seed, MAX_NS);
+            assert_eq!(w1.identity, w2.identity, "world construction is deterministic");
+            Worlds { w1, w2 }
+        });
+        f(ws)
+    })
+}
+
+fn describe_eval(e: &Eval) -> Value {
+    match e {
+        Eval::Object(o) => json!({"object": o.object, "history_nodes": o.graph.keys().map(|k| k.to_string()).collect::<Vec<_>>(), "tips": o.tips.iter().map(|k| k.to_string()).collect::<Vec<_>>()}),
+        Eval::Absent => json!("absent"),
+        Eval::Error(e) => json!({"error": e}),
+    }
+}
+
+/// Which part of the observation differs.
+fn difference(a: &Eval, b: &Eval) -> String {
+    match (a, b) {
+        (Eval::Object(x), Eval::Object(y)) => {
+            let mut parts = vec![];
+            if x.object != y.object || x.debug != y.debug {
+                parts.push(format!("object[{}]", diff_fields(x, y).join(",")));
+            }
+            if x.nodes() != y.nodes() {
+                parts.push("history-nodes".to_string());
+            } else if x.graph != y.graph {
+                parts.push("history-edges".to_string());
+            }
+            if x.tips != y.tips {
+                parts.push("history-tips".to_string());
+            }
+            if x.manifest != y.manifest {
+                parts.push("manifest".to_string());
+            }
+            parts.join("+")
+        }
+        _ => format!("{}-vs-{}", a.label(), b.label()),
+    }
+}
+
+fn eval_plan(seed: u64, plan: &Plan, pres: PresSet, variant: usize) -> ItemOut {
+    with_worlds(seed, |ws| {
+        let kind = plan.kind;
+        let ty = kind.type_name();
+        let n = plan.shape.n();
+        let built = build(&mut ws.w1, plan);
+        let tips = plan.shape.tips();
+        let max_len = match pres {
+            PresSet::Full => 3,
+            PresSet::Short => 2,
+        };
+        let all = presentations(n, &tips, max_len);
+        let mut vs = vec![];
+        let mut reference: Option<(Vec<usize>, Eval)> = None;
+        for seq in &all {
+            let refs: Vec<(usize, Oid)> = seq.iter().enumerate().map(|(ns, node)| (ns, built.ids[*node])).collect();
+            ws.w1.present(&ty, &built.obj, &refs);
+            let e = eval(&ws.w1, kind, &built.obj);
+            match &reference {
+                None => reference = Some((seq.clone(), e)),
+                Some((rseq, r)) => {
+                    if *r != e {
+                        let d = difference(r, &e);
+                        vs.push(
+                            Violation::new(
+                                format!("C05/{}/presentation-changes-result/{d}", kind.name()),
+                                format!(
+                                    "{}: the same change set evaluates differently when the refs point at nodes {rseq:?} than at nodes {seq:?} (in ref-enumeration order): {d}",
+                                    kind.name()
+                                ),
+                                json!({"plan": plan_json(plan, Some(&built)), "presentation_a": rseq, "presentation_b": seq, "pres_max_len": max_len, "variant": variant,
+                                       "result_a": describe_eval(r), "result_b": describe_eval(&e)}),
+                            )
+                            .cost((n * 100 + seq.len() * 10 + rseq.len()) as u64),
+                        );
+                    }
+                }
+            }
+        }
+        ws.w1.clear(&ty, &built.obj);
+        let (rseq, r) = reference.expect("at least one presentation");
+        // Different order of arrival: children first, into a repository that has seen nothing.
+        if kind != Kind::Identity || n > 0 {
+            for i in (0..=n).rev() {
+                if kind == Kind::Identity && i == 0 {
+                    continue; // the identity root is the repository's own
+                }
+                // Identity documents referenced by the changes must exist before evaluation.
+                for (_, blob) in &built.specs[i].embeds {
+                    let bytes = ws.w1.repo.backend.find_blob(**blob).expect("blob").content().to_vec();
+                    assert_eq!(ws.w2.blob(&bytes), *blob);
+                }
+                let id = ws.w2.write(&built.specs[i]);
+                assert_eq!(id, built.ids[i], "the same specification has the same id in both repositories");
+            }
+            let refs: Vec<(usize, Oid)> = rseq.iter().enumerate().map(|(ns, node)| (ns, built.ids[*node])).collect();
+            ws.w2.present(&ty, &built.obj, &refs);
+            let e = eval(&ws.w2, kind, &built.obj);
+            ws.w2.clear(&ty, &built.obj);
+            if e != r {
+                let d = difference(&r, &e);
+                vs.push(
+                    Violation::new(
+                        format!("C05/{}/arrival-order-changes-result/{d}", kind.name()),
+                        format!("{}: the same change set written children-first into a second repository evaluates differently: {d}", kind.name()),
+                        json!({"plan": plan_json(plan, Some(&built)), "presentation_a": rseq, "pres_max_len": max_len, "variant": variant,
+                               "result_a": describe_eval(&r), "result_b": describe_eval(&e)}),
+                    )
+                    .cost((n * 100) as u64),
+                );
+            }
+        }
+        let pruned = match &r {
+            Eval::Object(o) => built.ids.iter().filter(|id| !o.graph.contains_key(id)).count(),
+            _ => usize::MAX,
+        };
+        let ties = {
+            let mut t = plan.ts.clone();
+            t.sort();
+            t.windows(2).any(|w| w[0] == w[1])
+        };
+        let class = if n <= 1 {
+            0
+        } else {
+            mcx::fnv64(format!("{kind:?}/{:?}/{:?}/{variant}", plan.shape.parents, plan.ts).as_bytes()) | 1
+        };
+        let outcome = format!(
+            "kind={}|shape={}|result={}|pruned={}|ts={}|rank=n{}:{}{}|variant={}|presentations={}",
+            kind.name(),
+            plan.shape.class(),
+            r.label(),
+            if pruned == usize::MAX { "-".to_string() } else { pruned.to_string() },
+            if ties { "ties" } else { "distinct" },
+            n,
+            built.rank.iter().map(|r| r.to_string()).collect::<String>(),
+            if built.rank_ok { "" } else { ":salt-cap" },
+            variant,
+            all.len() + 1,
+        );
+        ItemOut::new(class, outcome).with(vs)
+    })
+}
+
+fn replay(ctx: &Ctx, w: &Value) -> Vec<Violation> {
+    let plan = w.get("plan").and_then(plan_from_json).unwrap_or_else(|| mcx::report::machinery("replay: witness has no plan"));
+    let pres = if w.get("pres_max_len").and_then(Value::as_u64) == Some(2) { PresSet::Short } else { PresSet::Full };
+    let variant = w.get("variant").and_then(Value::as_u64).unwrap_or(0) as usize;
+    let out = eval_plan(ctx.seed, &plan, pres, variant);
+    out.violations
+}
+
+/// Split the faceted outcome labels into one histogram per facet.
+fn marginals(outcomes: &BTreeMap<String, u64>) -> Map<String, Value> {
+    let mut m: BTreeMap<String, BTreeMap<String, u64>> = BTreeMap::new();
+    for (label, count) in outcomes {
+        for facet in label.split('|') {
+            if let Some((k, v)) = facet.split_once('=') {
+                *m.entry(k.to_string()).or_default().entry(v.to_string()).or_default() += count;
+            }
+        }
+    }
+    m.into_iter().map(|(k, v)| (k, json!(v))).collect()
+}
 
 fn main() {
-    let t = Instant::now();
-    let mut w = World::new(1, 4);
-    println!("world {:?} identity {} rid {}", t.elapsed(), w.identity, w.rid);
-    let ty = Kind::Issue.type_name();
-    let root = w.write(&ChangeSpec {
-        ty: ty.clone(),
-        resource: Some(w.identity),
-        parents: vec![],
-        ts: 0,
-        author: A,
-        bad_sig: false,
-        contents: vec![enc(&issue::Action::Comment { body: "root".into(), reply_to: None, embeds: vec![] }), enc(&issue::Action::Edit { title: "t0".into() })],
-        embeds: vec![],
-        salt: 0,
-    });
-    let t = Instant::now();
-    let mut prev = root;
-    let mut ids = vec![root];
-    for i in 1..=4 {
-        let id = w.write(&ChangeSpec {
-            ty: ty.clone(),
-            resource: Some(w.identity),
-            parents: vec![prev],
-            ts: i,
-            author: A,
-            bad_sig: false,
-            contents: vec![enc(&issue::Action::Edit { title: format!("t{i}") }), enc(&issue::Action::Comment { body: format!("c{i}"), reply_to: Some(root), embeds: vec![] })],
-            embeds: vec![],
-            salt: 0,
-        });
-        ids.push(id);
-        prev = id;
+    let ctx = Ctx::from_env("C05", "exploration");
+    let thorough = ctx.tier == mcx::Tier::Thorough;
+    let seed = ctx.seed;
+    if let Some(w) = ctx.replay_witness() {
+        let vs = replay(&ctx, &w);
+        WORLDS.with(|c| c.borrow_mut().take());
+        ctx.finish_replay(vs);
     }
-    println!("4 writes {:?}", t.elapsed());
-    let obj = radicle::cob::ObjectId::from(root);
-    let t = Instant::now();
-    for k in 0..200 {
-        w.present(&ty, &obj, &[(k % 4, prev), ((k + 1) % 4, ids[2])]);
+    let scratch = scratch();
+    let fams = families(thorough);
+    let total: u64 = fams.iter().map(Family::size).sum();
+    let eval_i = |i: u64| {
+        let (k, j) = locate(&fams, i);
+        let (plan, variant) = fams[k].plan(j);
+        eval_plan(seed, &plan, fams[k].pres, variant)
+    };
+    let describe = |i: u64| {
+        let (k, j) = locate(&fams, i);
+        let (plan, variant) = fams[k].plan(j);
+        json!({"index": i, "family": fams[k].describe(), "plan": plan_json(&plan, None), "variant": variant})
+    };
+    let mut st = sweep::procs(
+        "c05",
+        total,
+        ProcOpts { chunk_timeout: Duration::from_secs(600), item_timeout: Duration::from_secs(60), chunk: Some((total / 512).clamp(1, 64)) },
+        eval_i,
+        Some(|i: u64, c: &mcx::panics::Caught| {
+            Violation::new(format!("C05/panic@{}", c.site()), format!("panic while evaluating a change graph: {}", c.message), describe(i))
+        }),
+        |i: u64, crash: Crash, tail: &str| Violation::new(format!("C05/crash/{crash:?}"), format!("worker crashed / hung on item {i}: {tail}"), describe(i)),
+    );
+    let samples: Vec<Value> = sweep::sample_indexes(total).into_iter().map(describe).collect();
+    let m = marginals(&st.outcomes);
+    let pres_total: u64 = m
+        .get("presentations")
+        .and_then(Value::as_object)
+        .map(|o| o.iter().map(|(k, v)| k.parse::<u64>().unwrap_or(0) * v.as_u64().unwrap_or(0)).sum())
+        .unwrap_or(0);
+    // Rank-order coverage: which permutations of the change ids were realised, per n.
+    let mut rank_cov: BTreeMap<String, BTreeSet<String>> = BTreeMap::new();
+    let mut salt_cap_hits = 0u64;
+    if let Some(r) = m.get("rank").and_then(Value::as_object) {
+        for (k, v) in r {
+            let mut it = k.split(':');
+            let (n, perm) = (it.next().unwrap_or(""), it.next().unwrap_or(""));
+            if it.next().is_some() {
+                salt_cap_hits += v.as_u64().unwrap_or(0);
+            }
+            rank_cov.entry(n.to_string()).or_default().insert(perm.to_string());
+        }
     }
-    println!("200 presents {:?}", t.elapsed());
-    let t = Instant::now();
-    let mut e = Eval::Absent;
-    for _ in 0..200 {
-        e = eval(&w, Kind::Issue, &obj);
-    }
-    println!("200 evals {:?}", t.elapsed());
-    println!("{e:?}");
-    let e = eval(&w, Kind::Identity, &radicle::cob::ObjectId::from(w.identity));
-    println!("{}", e.label());
+    let mut cov = st.coverage(
+        "items = (object type, DAG shape on root + n changes given by every non-empty parent set per change, timestamp pattern, rank order of the change ids, payload variant) \
+         enumerated by index over the listed families; per item every covering sequence of ref targets over the namespaces (plus one children-first rebuild in a second repository) \
+         is evaluated with cob::get and compared; an item is non-trivial when n >= 2; distinct = distinct (type, shape, timestamp pattern, variant), rank orders not counted",
+        samples,
+    );
+    // The raw faceted labels are a product; report one histogram per facet instead.
+    cov.insert("outcome_histogram".into(), Value::Object(m.clone()));
+    cov.insert("distinct_outcomes".into(), json!(st.outcomes.len()));
+    cov.insert("families".into(), json!(fams.iter().map(Family::describe).collect::<Vec<_>>()));
+    cov.insert("cob_get_evaluations".into(), json!(pres_total));
+    cov.insert(
+        "rank_order_coverage".into(),
+        json!(rank_cov.iter().map(|(n, s)| (n.clone(), json!({"realised": s.len(), "of": (1..=n[1..].parse::<u64>().unwrap_or(0)).product::<u64>()}))).collect::<Map<String, Value>>()),
+    );
+    cov.insert("rank_salt_cap_hits".into(), json!(salt_cap_hits));
+    let violations = std::mem::take(&mut st.violations);
+    drop(scratch);
+    ctx.finish(
+        cov,
+        &[
+            "observation = Serialize + Debug of the object, manifest, and the full history graph of the CollaborativeObject returned by radicle_cob::get",
+            "ref-enumeration order of libgit2's references_glob is the byte order of the ref names (namespaces are assigned in that order)",
+            "commit timestamps are set through GIT_COMMITTER_DATE, one single-threaded worker process per core",
+            "trusted: libgit2 object database, ed25519 signatures of the mock signers",
+            "payloads are fixed 'recorder' actions per change index (order-sensitive registers + timeline); other payload alphabets are not varied in C05",
+        ],
+        violations,
+    );
 }
